@@ -417,6 +417,13 @@ def check_c_main(ctx, spec, case, toks, det, skipped, classes_seen, finfo):
     if rec["graph"] is not None:
         nb = 1
         classes_seen.add("graph:" + gc)
+        # (class nary_non_ufunc_over_view: the known id collision between the leaf and the sub-view's leaf already shows as a
+        #  self-loop, i.e. as an inconsistency - that class is decided by the expression-tree comparison alone)
+        rc = E.graph_consistency(rec["graph"]) if gc != "nary_non_ufunc_over_view" else None
+        if rc:
+            dump = rec["graph"]
+            ctx.violation("graph:%s:consistency:%s" % (gc, rc[0]), "get_compute_graph(%s): %s" % (describe(spec), rc[1]),
+                          dict(det, graph_nodes=[(n["id"], E._label_of(n), n.get("operands")) for n in dump["nodes"]], graph_edges=dump["edges"]))
         r = E.graph_diff(tree, case, spec, rec["graph"], sv_shapes if ok else {})
         if r:
             sym, why = r
